@@ -27,9 +27,13 @@ Two ingredients (DESIGN §6 C06):
    pending notifications}.  No hypothesis about an abstract queue is left: `Valid`, `hr`,
    `hnorem`/`hend`, `hrem`/`hearly` and `Embedded` are all derived from the run.  What remains
    explicit: the link `s = K − P` (built into `reqOf`, discharged by
-   `seconds_samples_roundtrip_binary64`), the property's side conditions read off the queue's own
-   log, and — with pauses — `NoReuse` (no two notified trials share `(start, key)`), which C05's
-   `Valid` demands; hence the suffix `_partial` there.  Without `pause(m)` it is automatic.
+   `seconds_samples_roundtrip_binary64`) and the property's side conditions read off the queue's
+   own log.  No hypothesis on dictionary keys: a queue paused exactly on a trial's start and resumed
+   presents the same stimulus at the same `t0` again, and the composed run is shown to keep the
+   per-key discipline of C05's per-request form (`ValidSeq`): per key the notifications alternate
+   `added, removed, added, …` (Helper/C06_Alt, C06_Notes — from `pause_cancels_exactly`, the
+   `Once` invariant and the clock rewinding), so the re-presented trial is taken in only after the
+   removal of the earlier one.
 -/
 namespace Psi.C06
 open Psi.Rounding Psi.Extract
@@ -178,30 +182,13 @@ theorem reqOf_start_roundtrip {fl : ℝ → ℝ} (hfl : IsFl ((2 : ℝ) ^ (-53 :
   rw [seconds_samples_roundtrip_binary64 hfl T fs p k c.K0 c.P hfs hT hp hsmall]
   simp only [reqOf, hk]
 
-/-- the dictionary key `(t0, key)` is an injective function of the start sample and the stimulus -/
-def EncInj (c : Cfg) : Prop := ∀ a b a' b', c.enc a b = c.enc a' b' → a = a' ∧ b = b'
-
-/-- no two notified trials (cancelled ones included) share start sample and stimulus: the
-extractor's dictionary keys are pairwise distinct over the whole history (C05's `Valid`) -/
-def NoReuse (added : List Info) : Prop := (added.map (fun i => (i.k, i.key))).Nodup
-
-theorem keysOK_of {c : Cfg} {added : List Info} (henc : EncInj c) (h : NoReuse added) : KeysOK c added := by
-  unfold KeysOK List.Nodup
-  unfold NoReuse List.Nodup at h
-  rw [List.pairwise_map] at h
-  rw [List.pairwise_map, List.pairwise_map]
-  refine h.imp ?_
-  intro a b hne he
-  obtain ⟨h1, h2⟩ := henc _ _ _ _ he
-  exact hne (by rw [h1, h2])
-
 /-- **Every notified trial is either still logged (kept) or was cancelled, never both**
 (C04 `removed_once`, through the invariant `Once` it is proved from). -/
 theorem kept_or_cancelled (c : Cfg) (evs : List Ev) (q0 : QState) (J : JState) (hstart : Start q0)
-    (hrun : jrun c evs (JState.init c q0) = .ok J) (henc : EncInj c) (hreuse : NoReuse J.q.added)
+    (hrun : jrun c evs (JState.init c q0) = .ok J) (henc : EncInj c)
     (hside : SideOK c J.q.added) (i : Info) (hi : i ∈ J.q.added) :
     (i ∈ J.q.generated ∧ i.uid ∉ J.q.removed) ∨ (i.uid ∈ J.q.removed ∧ i ∉ J.q.generated) := by
-  have inv := JInv_run c evs (JInv_init c q0 hstart) hrun (fun _ => hside) (keysOK_of henc hreuse)
+  have inv := JInv_run c henc evs (JInv_init c q0 hstart) hrun (fun _ => hside)
   obtain ⟨_, _, hex, hiff⟩ := Once_nodup inv.q.once
   have hlt : i.uid < J.q.added.length := by
     have : i.uid ∈ J.q.added.map (·.uid) := List.mem_map.2 ⟨i, hi, rfl⟩
@@ -214,18 +201,19 @@ theorem kept_or_cancelled (c : Cfg) (evs : List Ev) (q0 : QState) (J : JState) (
     exact Or.inl ⟨hg, fun hr => hex _ hr h⟩
   · exact Or.inr ⟨h, fun hg => hex _ h (List.mem_map.2 ⟨i, hg, rfl⟩)⟩
 
-/-- **End to end over the concrete queue model, kept trial (histories with pauses).**
+/-- **End to end over the concrete queue model, kept trial (histories with pauses) — full.**
 Run the composed system over any joint history (`hrun`); let `i` be a trial the queue still
 logs at the end (not cancelled) whose `added` notification has been handed to the extractor
 (`hseen`) and whose epoch the acquired stream has reached (`hreached`).  Then exactly one epoch is
-delivered under its key; it carries the trial's own request; after the `P` pre-stimulus samples it
-is the stimulus waveform, sample for sample, and every later sample of the epoch is silence or a
-located sample of a trial that starts after the waveform (silence up to the next trial).
-Side conditions, read off the queue's own log: `len ≤ dur ≤ L − P` (`hside`).
-**Partial** only in `hreuse`: C05's theorems need pairwise distinct dictionary keys. -/
-theorem e2e_composed_kept_partial (c : Cfg) (evs : List Ev) (q0 : QState) (J : JState)
+delivered under its key — even when cancelled trials had the same `(t0, key)` before it —; it
+carries the trial's own request; after the `P` pre-stimulus samples it is the stimulus waveform,
+sample for sample, and every later sample of the epoch is silence or a located sample of a trial
+that starts after the waveform (silence up to the next trial).
+Side conditions, read off the queue's own log: `len ≤ dur ≤ L − P` (`hside`).  No hypothesis on
+the dictionary keys. -/
+theorem e2e_composed_kept (c : Cfg) (evs : List Ev) (q0 : QState) (J : JState)
     (hstart : Start q0) (hrun : jrun c evs (JState.init c q0) = .ok J) (henc : EncInj c)
-    (hreuse : NoReuse J.q.added) (hside : SideOK c J.q.added)
+    (hside : SideOK c J.q.added)
     (i : Info) (hi : i ∈ J.q.generated) (hseen : Note.add i ∉ J.pend)
     (hreached : (c.K0 : Int) + i.k - (c.P : Int) + (c.L : Int) ≤ (J.acq : Int)) :
     ∃ e : Extract.Epoch Cell, (deliveries c.B J.eops (reqOf c i).key).flatten = [e] ∧
@@ -234,26 +222,14 @@ theorem e2e_composed_kept_partial (c : Cfg) (evs : List Ev) (q0 : QState) (J : J
       (∀ j, i.len ≤ j → c.P + j < c.L → e.data[c.P + j]? = some Cell.Z ∨
         ∃ i' ∈ J.q.added, i.k + (i.len : Int) ≤ i'.k ∧ ∃ j' : Nat, j' < i'.len ∧
           i'.k + (j' : Int) = i.k + (j : Int) ∧ e.data[c.P + j]? = some (Cell.W i'.key j')) := by
-  have hk := keysOK_of henc hreuse
-  have inv := JInv_run c evs (JInv_init c q0 hstart) hrun (fun _ => hside) hk
+  have inv := JInv_run c henc evs (JInv_init c q0 hstart) hrun (fun _ => hside)
   have hia := inv.q.emb.gensub i hi
-  obtain ⟨pre, opj, rest, heq, hr, hs0⟩ := locate c inv hk i hia hseen
+  obtain ⟨hdel, hacq⟩ := kept_delivered c inv i hi hseen hreached
   have hsv : (reqOf c i).s = (c.K0 : Int) + i.k - (c.P : Int) := rfl
   have hlv : (reqOf c i).len = c.L := rfl
-  have hacq : (reqOf c i).s.toNat + (reqOf c i).len ≤ J.acq := by rw [hlv]; omega
-  have hv : Valid c.B c.L (pre ++ (opj :: rest) ++ []) := by
-    have := inv.n.valid; rw [heq] at this; simpa using this
-  have hnorem : ∀ o ∈ opj :: rest, (reqOf c i).key ∉ o.rems := by
-    intro o ho hκ
-    obtain ⟨r, hra, hu, he⟩ := inv.n.remsSeen o (by rw [heq]; exact List.mem_append_right _ ho) _ hκ
-    have : i = r := KeysOK_inj hk hia hra he
-    subst this
-    exact (Once_nodup inv.q.once).2.2.1 _ hu (List.mem_map.2 ⟨i, hi, rfl⟩)
-  have hend : (reqOf c i).s.toNat + (reqOf c i).len ≤ total pre + total (opj :: rest) := by
-    have := inv.tot; rw [heq, total_append] at this; omega
-  have hdel := delivered_exact c.B c.L pre rest [] opj (reqOf c i) hv hr hnorem hend
-  have he0 : pre ++ (opj :: rest) ++ [] = J.eops := by rw [heq]; simp
-  rw [he0] at hdel
+  have hs0 : 0 ≤ (reqOf c i).s := by
+    obtain ⟨seen, g⟩ := inv.g
+    exact (locate c inv g i hia hseen).2.2
   have hside_i := hside i hia
   refine ⟨_, hdel, rfl, rfl, epoch_length c inv _ hacq, ?_, ?_⟩
   · intro j hj
@@ -268,38 +244,89 @@ theorem e2e_composed_kept_partial (c : Cfg) (evs : List Ev) (q0 : QState) (J : J
     · obtain ⟨i', hi', j', h1, h2, h3, h4⟩ := h
       exact Or.inr ⟨i', hi', by omega, j', h1, by omega, h4⟩
 
-/-- **End to end over the concrete queue model, cancelled trial (histories with pauses).**
-A notified trial that the queue has cancelled (`removed` log) never yields an epoch — whether its
-notifications have reached the extractor yet or not. -/
-theorem e2e_composed_cancelled_partial (c : Cfg) (evs : List Ev) (q0 : QState) (J : JState)
+/-- **Under any key, only kept trials yield epochs.**  Whatever the extractor has delivered under a
+dictionary key `κ` is at most one epoch, and it is the epoch `stream[s, s+L)` of a trial that the
+queue still logs (not cancelled), that carries this key, and whose last sample the acquired stream
+has reached — the one epoch `e2e_composed_kept` owes that trial.  Cancelled trials account for
+nothing, however often the key was re-used. -/
+theorem e2e_composed_only_kept (c : Cfg) (evs : List Ev) (q0 : QState) (J : JState)
     (hstart : Start q0) (hrun : jrun c evs (JState.init c q0) = .ok J) (henc : EncInj c)
-    (hreuse : NoReuse J.q.added) (hside : SideOK c J.q.added)
-    (i : Info) (hi : i ∈ J.q.added) (hc : i.uid ∈ J.q.removed) :
-    (deliveries c.B J.eops (reqOf c i).key).flatten = [] := by
-  have hk := keysOK_of henc hreuse
-  have inv := JInv_run c evs (JInv_init c q0 hstart) hrun (fun _ => hside) hk
-  rcases inv.n.canc i hi hc with hp | hs
-  · -- the removal is still pending: the stream has not reached the epoch's last sample
-    obtain ⟨_, _, hlt⟩ := inv.n.remsPend i hp
-    by_cases hm : reqOf c i ∈ allReqs J.eops
-    · obtain ⟨pre, op, rest, heq, hr⟩ := ReqSeen_of_mem hm
-      have hv := inv.n.valid
-      rw [heq] at hv ⊢
-      apply unreached_never_delivered c.B c.L pre rest op (reqOf c i) hv hr
-      rw [← heq, inv.tot]; exact hlt
-    · apply never_requested_silent c.B c.L J.eops _ inv.n.valid
-      intro r hr he
-      have hr' : r ∈ J.q.added.map (reqOf c) := by rw [← inv.n.reqs]; exact List.mem_append_left _ hr
-      obtain ⟨i', hi', rfl⟩ := List.mem_map.1 hr'
-      have : i' = i := KeysOK_inj hk hi' hi he
-      subst this
-      exact hm hr
-  · -- request and removal were both seen: the hypotheses of `e2e_cancelled`
-    obtain ⟨pre0, seg, opi, post, o0, tl, heq, hseg, h1, h2, h3⟩ := hs
-    have hv := inv.n.valid
-    rw [heq] at hv ⊢
-    exact e2e_cancelled c.B c.L pre0 seg post opi ⟨reqOf c i, wave i.key 0 i.len⟩ hv
-      ⟨o0, tl, hseg, h1⟩ h2 h3
+    (hside : SideOK c J.q.added) (κ : Nat) :
+    (deliveries c.B J.eops κ).flatten = [] ∨
+    ∃ i' ∈ J.q.generated, i'.uid ∉ J.q.removed ∧ (reqOf c i').key = κ ∧
+      (reqOf c i').s.toNat + c.L ≤ J.acq ∧
+      (deliveries c.B J.eops κ).flatten = [epochOf (streamOf J.eops) (reqOf c i')] := by
+  have inv := JInv_run c henc evs (JInv_init c q0 hstart) hrun (fun _ => hside)
+  obtain ⟨seen, g⟩ := inv.g
+  rw [deliveries_key c inv g κ]
+  cases ho : altEnd none (onKey c κ seen) with
+  | none => left; rfl
+  | some i' =>
+    by_cases hd : doneAt (reqOf c i') J.acq = true
+    · right
+      obtain ⟨h1, h2, _⟩ := outstanding_added g (fun _ hn => List.mem_append_left _ hn) ho
+      have hdone : (reqOf c i').s.toNat + c.L ≤ J.acq := by simpa [doneAt, reqOf] using hd
+      -- its removal is neither pending (it would have come too late) nor seen: it is still logged
+      have halt := g.alt κ
+      rw [onKey_append, AltM_append, ho] at halt
+      have hpk : onKey c κ J.pend = [] := by
+        cases hp : onKey c κ J.pend with
+        | nil => rfl
+        | cons x xs =>
+          exfalso
+          obtain ⟨l', hl, _⟩ := AltM_head halt.2 (by rw [hp]; simp)
+          have hmem : Note.rem i' ∈ onKey c κ J.pend := by rw [hl]; exact List.mem_cons_self
+          have := (inv.n.remsPend i' (mem_onKey.1 hmem).1).2.2
+          omega
+      have hlast : altEnd none (onKey c κ (seen ++ J.pend)) = some i' := by
+        rw [onKey_append, altEnd_append, ho, hpk]; rfl
+      have hu := g.last κ i' hlast
+      exact ⟨i', logged_of_not_removed inv.q h1 hu, hu, h2, hdone, by simp [Option.filter, hd]⟩
+    · left
+      have : doneAt (reqOf c i') J.acq = false := by simpa using hd
+      simp [Option.filter, this]
+
+/-- **End to end over the concrete queue model, cancelled trial (histories with pauses) — full.**
+A notified trial that the queue has cancelled (`removed` log) never yields an epoch — whether its
+notifications have reached the extractor yet or not: under its key nothing is delivered at all, or
+exactly the one epoch owed to a *kept* trial `i' ≠ i` that was presented at the same start sample
+with the same stimulus after `i` was cancelled (`e2e_composed_kept` gives that trial exactly this
+epoch, so none is left for `i`).  In particular nothing is delivered under its key whenever no
+logged trial shares its (start, stimulus). -/
+theorem e2e_composed_cancelled (c : Cfg) (evs : List Ev) (q0 : QState) (J : JState)
+    (hstart : Start q0) (hrun : jrun c evs (JState.init c q0) = .ok J) (henc : EncInj c)
+    (hside : SideOK c J.q.added)
+    (i : Info) (_hi : i ∈ J.q.added) (hc : i.uid ∈ J.q.removed) :
+    ((deliveries c.B J.eops (reqOf c i).key).flatten = [] ∨
+      ∃ i' ∈ J.q.generated, i'.uid ∉ J.q.removed ∧ i' ≠ i ∧ i'.k = i.k ∧ i'.key = i.key ∧
+        (deliveries c.B J.eops (reqOf c i).key).flatten = [epochOf (streamOf J.eops) (reqOf c i')]) ∧
+    ((∀ i' ∈ J.q.generated, ¬ (i'.k = i.k ∧ i'.key = i.key)) →
+      (deliveries c.B J.eops (reqOf c i).key).flatten = []) := by
+  have key := e2e_composed_only_kept c evs q0 J hstart hrun henc hside (reqOf c i).key
+  have hsame : ∀ i', (reqOf c i').key = (reqOf c i).key → i'.k = i.k ∧ i'.key = i.key :=
+    fun i' h => henc _ _ _ _ h
+  constructor
+  · rcases key with h | ⟨i', hg, hu, hk, _, hdel⟩
+    · exact Or.inl h
+    · obtain ⟨h1, h2⟩ := hsame i' hk
+      exact Or.inr ⟨i', hg, hu, fun he => hu (he ▸ hc), h1, h2, hdel⟩
+  · intro hnone
+    rcases key with h | ⟨i', hg, _, hk, _, _⟩
+    · exact h
+    · exact absurd (hsame i' hk) (hnone i' hg)
+
+/-- **The extractor never raises in a composed run** — in particular never the
+`ValueError('Duplicate epochs not supported')` of a key re-used before its removal was seen: the
+queue presents a (start, stimulus) again only after cancelling the earlier trial, and the
+notifications reach the extractor in issue order.  Every epoch handed on has length `L` and is
+`stream[s, s+L)` of the request it carries. -/
+theorem e2e_composed_never_raises (c : Cfg) (evs : List Ev) (q0 : QState) (J : JState)
+    (hstart : Start q0) (hrun : jrun c evs (JState.init c q0) = .ok J) (henc : EncInj c)
+    (hside : SideOK c J.q.added) :
+    ∀ out ∈ (Extract.run (State.init c.B) J.eops).2, ∃ batch fired, out = .ok batch fired ∧
+      ∀ e ∈ batch, e = epochOf (streamOf J.eops) e.req ∧ e.req ∈ allReqs J.eops ∧ e.data.length = c.L :=
+  metadata_paired_seq c.B c.L J.eops
+    (JInv_run c henc evs (JInv_init c q0 hstart) hrun (fun _ => hside)).n.valid
 
 /-- a history without `pause(m)` (pause(), resume(), resume(m) are allowed) -/
 def NoPause (evs : List Ev) : Prop := ∀ ev ∈ evs, isPause ev = false
@@ -310,7 +337,7 @@ acquired stream has reached yields exactly one epoch, and after the `P` pre-stim
 epoch is the stimulus waveform followed by zeros — under the property's own side conditions for
 that trial: the epoch covers the stimulus (`len + P ≤ L`) and ends before the next trial
 (`L − P ≤ len + delay`).  No hypothesis on the keys: starts increase strictly.  The hypotheses of
-`e2e_kept` (`Valid`, `hr`, `hnorem`, `hend`, `Embedded`) are all discharged from the run. -/
+`e2e_kept` are all discharged from the run (through `kept_delivered`, as in `e2e_composed_kept`). -/
 theorem e2e_composed_nopause (c : Cfg) (evs : List Ev) (q0 : QState) (J : JState)
     (hstart : Start q0) (hrun : jrun c evs (JState.init c q0) = .ok J) (henc : EncInj c)
     (hnp : NoPause evs) (i : Info) (hi : i ∈ J.q.added) (hseen : Note.add i ∉ J.pend)
@@ -321,23 +348,15 @@ theorem e2e_composed_nopause (c : Cfg) (evs : List Ev) (q0 : QState) (J : JState
       e.req = reqOf c i ∧ e.missed = false ∧
       e.data.drop c.P = wave i.key 0 i.len ++ List.replicate (c.L - c.P - i.len) Cell.Z := by
   obtain ⟨inv, np⟩ := JNP_run c evs henc (JInv_init c q0 hstart) (NPInv_init c q0 hstart) hnp hrun
-  have hk : KeysOK c J.q.added := KeysOK_of_sorted c _ henc (np.all ▸ inv.q.sorted)
   have hig : i ∈ J.q.generated := by rw [np.all]; exact hi
-  obtain ⟨pre, opj, rest, heq, hr, hs0⟩ := locate c inv hk i hi hseen
+  obtain ⟨hdel, hacq⟩ := kept_delivered c inv i hig hseen hreached
+  have hs0 : 0 ≤ (reqOf c i).s := by
+    obtain ⟨seen, g⟩ := inv.g
+    exact (locate c inv g i hi hseen).2.2
   have hsv : (reqOf c i).s = (c.K0 : Int) + i.k - (c.P : Int) := rfl
   have hlv : (reqOf c i).len = c.L := rfl
-  have hacq : (reqOf c i).s.toNat + (reqOf c i).len ≤ J.acq := by rw [hlv]; omega
-  have he0 : pre ++ (opj :: rest) ++ [] = J.eops := by rw [heq]; simp
-  have hv : Valid c.B c.L (pre ++ (opj :: rest) ++ []) := by rw [he0]; exact inv.n.valid
-  have hnorem : ∀ o ∈ opj :: rest, (reqOf c i).key ∉ o.rems := by
-    intro o ho hκ
-    obtain ⟨r, _, hu, _⟩ := inv.n.remsSeen o (by rw [heq]; exact List.mem_append_right _ ho) _ hκ
-    rw [np.norem] at hu; cases hu
-  have hend : (reqOf c i).s.toNat + (reqOf c i).len ≤ total pre + total (opj :: rest) := by
-    have := inv.tot; rw [heq, total_append] at this; omega
   have hwl : (wave i.key 0 i.len).length = i.len := by simp [wave]
-  have hemb : Embedded Cell.Z (streamOf (pre ++ (opj :: rest) ++ [])) c.P ⟨reqOf c i, wave i.key 0 i.len⟩ := by
-    rw [he0]
+  have hemb : Embedded Cell.Z (streamOf J.eops) c.P ⟨reqOf c i, wave i.key 0 i.len⟩ := by
     unfold Embedded
     simp only [hlv, hwl]
     have hacq' := inv.acq
@@ -363,11 +382,11 @@ theorem e2e_composed_nopause (c : Cfg) (evs : List Ev) (q0 : QState) (J : JState
         slice_length _ _ _ (by omega)
       rw [List.getElem?_eq_none (by omega), List.getElem?_eq_none]
       simp only [List.length_append, hwl, List.length_replicate]; omega
-  obtain ⟨e, h1, h2, h3, h4⟩ := e2e_kept Cell.Z c.B c.L c.P pre rest [] opj
-    ⟨reqOf c i, wave i.key 0 i.len⟩ hv hr hnorem hend hemb
-  rw [he0] at h1
-  simp only [hlv, hwl] at h4
-  exact ⟨np.norem, e, h1, h2, h3, h4⟩
+  refine ⟨np.norem, _, hdel, rfl, rfl, ?_⟩
+  simp only [epochOf]
+  rw [slice_drop]
+  unfold Embedded at hemb
+  simpa only [hlv, hwl] using hemb
 
 /-- **The code's own schedule is admissible.**  After any history in which every acquisition call
 drained the notification FIFO (what `extract_epochs` does with its two deques), the next draining
@@ -377,14 +396,13 @@ starts before the acquisition (`P ≤ K0 + k`): notifications are issued at gene
 before the corresponding samples are acquired (C05 `visible_of_recent`). -/
 theorem deque_schedule_admissible (c : Cfg) (evs : List Ev) (q0 : QState) (J : JState)
     (hstart : Start q0) (hrun : jrun c evs (JState.init c q0) = .ok J) (henc : EncInj c)
-    (hreuse : NoReuse J.q.added) (hside : SideOK c J.q.added)
+    (hside : SideOK c J.q.added)
     (hdr : drains c evs (JState.init c q0) = true) (hPB : c.P ≤ c.B)
     (hpre : ∀ i ∈ J.q.added, (c.P : Int) ≤ (c.K0 : Int) + i.k)
     (n : Nat) (complete : Bool) (hn : J.acq + n ≤ J.tl.length) :
     ∃ J', jstep c J (.acq n J.pend.length complete) = .ok J' := by
-  have hk := keysOK_of henc hreuse
-  have inv := JInv_run c evs (JInv_init c q0 hstart) hrun (fun _ => hside) hk
-  have d := DInv_run c evs (JInv_init c q0 hstart) (by intro i hi; simp [JState.init] at hi) hdr hrun hside hk
+  have inv := JInv_run c henc evs (JInv_init c q0 hstart) hrun (fun _ => hside)
+  have d := DInv_run c henc evs (JInv_init c q0 hstart) (by intro i hi; simp [JState.init] at hi) hdr hrun hside
   exact deque_step_ok c inv d hPB (fun i hi => hpre i (inv.n.addsPend i hi)) n _ complete hn (Nat.le_refl _)
 
 /-! ### Non-vacuity: a concrete joint history (FIFO queue, one 3-sample stimulus × 3, delay 2;
@@ -436,21 +454,66 @@ pre-stimulus sample -/
 example : ∃ e : Extract.Epoch Cell,
     (deliveries exC.B exJ.eops (reqOf exC ⟨2, 0, 9, 3, 3, 2⟩).key).flatten = [e] ∧
       ∀ j, j < 3 → e.data[1 + j]? = some (Cell.W 0 j) := by
-  obtain ⟨e, h1, _, _, _, h5, _⟩ := e2e_composed_kept_partial exC exEvs exQ exJ exQ_start exRun exC_inj
-    (by unfold NoReuse; decide +kernel) (by unfold SideOK; decide +kernel) ⟨2, 0, 9, 3, 3, 2⟩
+  obtain ⟨e, h1, _, _, _, h5, _⟩ := e2e_composed_kept exC exEvs exQ exJ exQ_start exRun exC_inj
+    (by unfold SideOK; decide +kernel) ⟨2, 0, 9, 3, 3, 2⟩
     (by decide +kernel) (by decide +kernel) (by decide +kernel)
   exact ⟨e, h1, h5⟩
 
 /-- the trial notified at queue sample 5 was cancelled by the pause: no epoch -/
 example : (deliveries exC.B exJ.eops (reqOf exC ⟨1, 0, 5, 3, 3, 2⟩).key).flatten = [] :=
-  e2e_composed_cancelled_partial exC exEvs exQ exJ exQ_start exRun exC_inj
-    (by unfold NoReuse; decide +kernel) (by unfold SideOK; decide +kernel) ⟨1, 0, 5, 3, 3, 2⟩
-    (by decide +kernel) (by decide +kernel)
+  (e2e_composed_cancelled exC exEvs exQ exJ exQ_start exRun exC_inj
+    (by unfold SideOK; decide +kernel) ⟨1, 0, 5, 3, 3, 2⟩
+    (by decide +kernel) (by decide +kernel)).2 (by decide +kernel)
+
+/-! A history that **re-uses a dictionary key**: generate 4 samples (trial uid 0 at queue sample 0),
+pause at queue sample 0 — exactly on its start: it is cancelled, the clock rewinds to 0 —, resume,
+generate 8 (trial uid 1 again at queue sample 0 with the same stimulus, trial uid 2 at 5), acquire
+10 samples in one call that sees `added, removed, added, added`. -/
+
+def exEvsR : List Ev :=
+  [.q (.pop 4), .q (.pause (some 0)), .q (.resume none), .q (.pop 8), .acq 10 9 true]
+
+def exJR : JState :=
+  match jrun exC exEvsR (JState.init exC exQ) with
+  | .ok J => J
+  | .error _ => JState.init exC exQ
+
+theorem exRunR : jrun exC exEvsR (JState.init exC exQ) = .ok exJR := by rfl
+
+example : exJR.q.added.map (fun i => (i.uid, i.k, i.key)) = [(0, 0, 0), (1, 0, 0), (2, 5, 0)] ∧
+    exJR.q.removed = [0] ∧ exJR.pend = [] ∧ exJR.acq = 10 ∧
+    exJR.eops.map (fun o => (o.reqs.map (·.key), o.rems)) =
+      [([Nat.pair 0 0, Nat.pair 0 0, Nat.pair 10 0], [Nat.pair 0 0])] := by decide +kernel
+
+/-- the re-presented trial (uid 1) is recovered: exactly one epoch under the shared key -/
+example : ∃ e : Extract.Epoch Cell,
+    (deliveries exC.B exJR.eops (reqOf exC ⟨1, 0, 0, 3, 3, 2⟩).key).flatten = [e] ∧
+      ∀ j, j < 3 → e.data[1 + j]? = some (Cell.W 0 j) := by
+  obtain ⟨e, h1, _, _, _, h5, _⟩ := e2e_composed_kept exC exEvsR exQ exJR exQ_start exRunR exC_inj
+    (by unfold SideOK; decide +kernel) ⟨1, 0, 0, 3, 3, 2⟩
+    (by decide +kernel) (by decide +kernel) (by decide +kernel)
+  exact ⟨e, h1, h5⟩
+
+/-- the cancelled trial (uid 0) has the same key: the one epoch under it is the kept trial's -/
+example : ∃ i' ∈ exJR.q.generated, i'.uid ∉ exJR.q.removed ∧ i' ≠ ⟨0, 0, 0, 3, 3, 2⟩ ∧
+    (deliveries exC.B exJR.eops (reqOf exC ⟨0, 0, 0, 3, 3, 2⟩).key).flatten =
+      [epochOf (streamOf exJR.eops) (reqOf exC i')] := by
+  rcases (e2e_composed_cancelled exC exEvsR exQ exJR exQ_start exRunR exC_inj
+    (by unfold SideOK; decide +kernel) ⟨0, 0, 0, 3, 3, 2⟩ (by decide +kernel) (by decide +kernel)).1 with h | h
+  · exfalso
+    obtain ⟨e, h1, _⟩ := e2e_composed_kept exC exEvsR exQ exJR exQ_start exRunR exC_inj
+      (by unfold SideOK; decide +kernel) ⟨1, 0, 0, 3, 3, 2⟩
+      (by decide +kernel) (by decide +kernel) (by decide +kernel)
+    have : reqOf exC ⟨1, 0, 0, 3, 3, 2⟩ = reqOf exC ⟨0, 0, 0, 3, 3, 2⟩ := rfl
+    rw [this, h] at h1
+    cases h1
+  · obtain ⟨i', h1, h2, h3, _, _, h6⟩ := h
+    exact ⟨i', h1, h2, h3, h6⟩
 
 /-- the history above drains the deques in both calls; a further call of 0 samples is admissible -/
 example : ∃ J', jstep exC exJ (.acq 0 exJ.pend.length true) = .ok J' :=
   deque_schedule_admissible exC exEvs exQ exJ exQ_start exRun exC_inj
-    (by unfold NoReuse; decide +kernel) (by unfold SideOK; decide +kernel) (by rfl) (by decide)
+    (by unfold SideOK; decide +kernel) (by rfl) (by decide)
     (by decide +kernel) 0 true (by decide +kernel)
 
 /-- the request start of the kept trial is what the extractor's float expression yields (identity
